@@ -93,13 +93,16 @@ def framing_body(ctx, case):
             # read number exc[0] (1-based among reads) happens iff the previous reads were all empty
             reads_needed = (empties + 1) if line is not None else 26
             exc_hits = exc[0] <= min(reads_needed, 26)
+    content_ok = line is not None and line.strip().startswith(name) and "Err:" not in line.strip()
+    # "waits through up to 25 empty reads" promises the wait for 25; a reply that comes later than that may find the
+    # request still waiting (a more patient implementation) or already given up - both are within the statement
+    late = line is not None and empties > 25 and not exc_hits
     if exc_hits:
         ok = False
     elif line is None or empties > 25:
         ok = False
     else:
-        resp = line.strip()
-        ok = resp.startswith(name) and "Err:" not in resp
+        ok = content_ok
     classes = {"method_" + method, "reply_" + kind}
     shape = ("one_letter" if len(trimmed) == 1 else "one_letter_args" if trimmed[1] == "," else "two_letter")
     classes.add(shape)
@@ -129,6 +132,9 @@ def framing_body(ctx, case):
     lenient = exc_hits and name.lower() in ("r", "rb", "bl")
     if lenient:
         return
+    if late and port.reads == empties + 1 and not (exc is not None and 26 < exc[0] <= empties + 1):
+        ok = content_ok                              # it was still waiting when the reply came
+        ctx.count("late_reply_still_awaited")
     if ok:
         if obj.err is not None:
             ctx.fail("%s: a correct reply was treated as an error: %r" % (what, obj.err), case)
@@ -149,9 +155,11 @@ def framing_body(ctx, case):
             ctx.fail("%s returned %r, expected failure value %r" % (what, result, expected), case)
         if obj.err is None:
             ctx.fail("%s: failure not recorded in err" % what, case)
-        if not exc_hits and (line is None or empties > 25) and port.reads != 26:
-            ctx.fail("%s: %d reads before giving up, expected 26 (first read + 25 retries)"
-                     % (what, port.reads), case)
+        if not exc_hits and (line is None or empties > 25):
+            most = 1000 if line is None else max(26, empties + 1)
+            if not 26 <= port.reads <= most:
+                ctx.fail("%s: %d reads before giving up; the request must wait through 25 empty reads (26 reads) "
+                         "and must give up eventually (at most %d reads here)" % (what, port.reads, most), case)
 
 
 NAME1 = st.sampled_from(list("QVRSAXT"))
